@@ -60,17 +60,17 @@ func registerCallbacks(k keeper.Keeper) *cbLog {
 // ---------------------------------------------------------------- a request context with its current batch
 
 type ReqScene struct {
-	K        keeper.Keeper
-	Ctx      sdk.Context
-	H        int64
-	Now      time.Time
-	N        int
-	Provs    []sdk.AccAddress
-	Owner    sdk.AccAddress
-	Binds    []BindingSpec
-	Consumer sdk.AccAddress
-	ID       []byte
-	Pre      types.RequestContext
+	K         keeper.Keeper
+	Ctx       sdk.Context
+	H         int64
+	Now       time.Time
+	N         int
+	Provs     []sdk.AccAddress
+	Owner     sdk.AccAddress
+	Binds     []BindingSpec
+	Consumer  sdk.AccAddress
+	ID        []byte
+	Pre       types.RequestContext
 	MaxTotal  int64 // ghost: largest total ever in force (>= current total)
 	Unbounded bool  // ghost: total -1 (no limit) was in force at some time
 
@@ -93,21 +93,22 @@ type ReqScene struct {
 }
 
 type ReqOpts struct {
-	MaxProv   int  // providers listed in the context: 1..MaxProv
-	Batch     bool // a batch is in flight (requests, expiry entry)
-	AtExpiry  bool // the batch expires in this block
-	NewBatch  bool // a new-batch entry is pending at this height (no batch in flight)
-	NT, NV    int  // promotions per pricing
-	AllBound  bool // every listed provider has a binding
-	Module    bool // the context may belong to another module (callbacks registered)
-	Earned    bool // providers may hold earned fees
-	NoSlash   bool // slash fraction fixed to 0 (lifecycle-focused scenes; slashing is decided by the C03/C04/C14 scenes)
-	ZeroDep   int  // the first ZeroDep providers' bindings may hold a zero deposit (refunded bindings)
-	MinReq    int  // at least MinReq requests in the batch in flight
-	Vol       bool // consumers may already have a request volume with the providers
-	Restart   bool // allow frequency == timeout: the next batch starts in the block in which this one expires
-	OneOutput bool // stored responses all carry a well-formed output (their shape only matters to callbacks)
-	OnlyState int  // -1: any state
+	MaxProv    int  // providers listed in the context: 1..MaxProv
+	Batch      bool // a batch is in flight (requests, expiry entry)
+	AtExpiry   bool // the batch expires in this block
+	NewBatch   bool // a new-batch entry is pending at this height (no batch in flight)
+	NT, NV     int  // promotions per pricing
+	AllBound   bool // every listed provider has a binding
+	Module     bool // the context may belong to another module (callbacks registered)
+	ModuleOnly bool // with Module: the context always belongs to the other module
+	Earned     bool // providers may hold earned fees
+	NoSlash    bool // slash fraction fixed to 0 (lifecycle-focused scenes; slashing is decided by the C03/C04/C14 scenes)
+	ZeroDep    int  // the first ZeroDep providers' bindings may hold a zero deposit (refunded bindings)
+	MinReq     int  // at least MinReq requests in the batch in flight
+	Vol        bool // consumers may already have a request volume with the providers
+	Restart    bool // allow frequency == timeout: the next batch starts in the block in which this one expires
+	OneOutput  bool // stored responses all carry a well-formed output (their shape only matters to callbacks)
+	OnlyState  int  // -1: any state
 }
 
 // ctxFields draws the lifecycle-independent fields of a context within the CTX invariant.
@@ -132,12 +133,14 @@ func (s *ReqScene) ctxFields(tag string, o ReqOpts) {
 	s.Unbounded = vf.Bool(tag + ".everUnbounded")
 	vf.Assume(vf.Implies(vf.And(repeated, total == -1), s.Unbounded))
 	vf.Assume(vf.Implies(vf.And(repeated, !s.Unbounded), int64(bc) <= s.MaxTotal))
-	vf.Assume(vf.Implies(!repeated, vf.And(vf.And(freq == 0, total == 0), bc <= 1)))
+	// a one-shot context is created with frequency = total = 0, but an update message may have stored a
+	// frequency (>= timeout) and a total on it; it never gets a second batch
+	vf.Assume(vf.Implies(!repeated, vf.All(vf.Or(freq == 0, vf.And(freq >= uint64(timeout), freq < uint64(maxH))), total >= -1, total < maxH, bc <= 1)))
 	if o.AtExpiry && !o.Restart {
 		vf.Assume(vf.Implies(repeated, freq > uint64(timeout)))
 	}
 	module := ""
-	if o.Module && vf.Bool(tag+".module") {
+	if o.Module && (o.ModuleOnly || vf.Bool(tag+".module")) {
 		module = Mod
 	}
 	st := vf.Uint32(tag + ".state")
@@ -146,8 +149,12 @@ func (s *ReqScene) ctxFields(tag string, o ReqOpts) {
 	if o.OnlyState >= 0 {
 		vf.Assume(int(state) == o.OnlyState)
 	}
+	// between batches the record still carries the counts and the threshold snapshot of the previous batch
+	bth := vf.Uint32(tag + ".batchThreshold")
+	preq, presp := vf.Uint32(tag+".prevRequests"), vf.Uint32(tag+".prevResponses")
+	vf.Assume(vf.All(bth >= 1, bth <= 10, preq <= 10, presp <= preq))
 	s.Pre = types.NewRequestContext(Svc, s.Provs, s.Consumer, InputOK, coins(capAmt), timeout, super, repeated, freq, total,
-		bc, 0, 0, th, types.BATCHCOMPLETED, state, th, module)
+		bc, preq, presp, bth, types.BATCHCOMPLETED, state, th, module)
 }
 
 // counterRoom: the C10 invariant for a context with no batch in flight (a pending start or idle):
@@ -293,7 +300,6 @@ func (s *ReqScene) addBatch(o ReqOpts) {
 	}
 	s.Pre.BatchRequestCount = uint32(s.M)
 	s.Pre.BatchResponseCount = uint32(nresp)
-	s.Pre.BatchResponseThreshold = s.Pre.ResponseThreshold
 	if s.M > 0 && nresp == s.M {
 		s.Pre.BatchState = types.BATCHCOMPLETED // completed early by the last response
 	} else {
